@@ -500,7 +500,7 @@ func ruleR03_2(w *World, r *Report) {
 					}
 					feeds := false
 					for _, a := range c.Common().Args {
-						if derivesFromParam(a, p) {
+						if derivesFromParam(a, p) || convertedFromParam(a, p) {
 							feeds = true
 						}
 					}
@@ -546,6 +546,48 @@ func ruleR03_2(w *World, r *Report) {
 			}
 		}
 	}
+}
+
+// convertedFromParam: v is (an element of) the result of an orda function that was handed p, e.g. the values brought
+// into their JSON form: what the constructor receives still stems from the caller's parameter.
+func convertedFromParam(v ssa.Value, p *ssa.Parameter) bool {
+	for i := 0; i < 8; i++ {
+		switch x := v.(type) {
+		case *ssa.UnOp:
+			v = x.X
+			continue
+		case *ssa.IndexAddr:
+			v = x.X
+			continue
+		case *ssa.Index:
+			v = x.X
+			continue
+		case *ssa.Slice:
+			v = x.X
+			continue
+		case *ssa.MakeInterface:
+			v = x.X
+			continue
+		case *ssa.Extract:
+			v = x.Tuple
+			continue
+		}
+		break
+	}
+	call, ok := v.(*ssa.Call)
+	if !ok {
+		return false
+	}
+	f := call.Call.StaticCallee()
+	if f == nil || f.Pkg == nil || !isOrda(f.Pkg.Pkg.Path()) {
+		return false
+	}
+	for _, a := range call.Call.Args {
+		if derivesFromParam(a, p) || literalSliceHolds(a, p) {
+			return true
+		}
+	}
+	return false
 }
 
 // errSourceCall: v is the error result (possibly extracted) of a call.
